@@ -13,6 +13,7 @@ import (
 	"bytes"
 	"fmt"
 	"io"
+	"os"
 	"reflect"
 
 	hessian "github.com/vogo/gohessian"
@@ -554,6 +555,9 @@ func runC11(ch *Choices, cfg *RunCfg) (o *Outcome) {
 	}
 
 	mode := ch.Pick([]int{60, 13, 13, 14}, "mode")
+	if os.Getenv("VF_C11_FORCE") == "soak4" {
+		mode = 3 // development aid
+	}
 	switch mode {
 	case 0:
 		// seeded history, then probe
@@ -604,7 +608,10 @@ func runC11(ch *Choices, cfg *RunCfg) (o *Outcome) {
 		// soak: ONE failing call repeated many times (state that leaks a little per failure only shows
 		// after many), then probes incl. a deeply nested value
 		R := ch.Range(20, 400, "soak.n")
-		kind := ch.Intn(4, "soak.kind")
+		kind := ch.Intn(5, "soak.kind")
+		if os.Getenv("VF_C11_FORCE") == "soak4" {
+			kind = 4
+		}
 		var data []byte
 		var val interface{}
 		var what string
@@ -616,6 +623,16 @@ func runC11(ch *Choices, cfg *RunCfg) (o *Outcome) {
 			data = c11ValidBytes(st.g.Value())
 			data, _, _ = ApplyPlan(data, c14DrawPlan(ch, len(data), nil))
 			what = "decode of a damaged stream"
+		case 4:
+			// a typed list / map whose type name the type map does not know: the name is read (and numbered as
+			// a type reference target), then the decode fails before any container is registered
+			data = []byte{0x72, 0x0b}
+			data = append(data, "[nosuchtype"...)
+			data = append(data, 0x90, 0x91)
+			if ch.Intn(2, "soak.cutname") == 1 {
+				data = data[:2+ch.Intn(12, "soak.cutat")]
+			}
+			what = "decode of a typed list of an unknown type (possibly cut inside / behind the type name)"
 		case 2:
 			val = st.g.Value()
 			what = "WriteTo aborted by a writer fault"
@@ -626,7 +643,7 @@ func runC11(ch *Choices, cfg *RunCfg) (o *Outcome) {
 		k := 1 + ch.Intn(30, "soak.k")
 		for i := 0; i < R; i++ {
 			switch kind {
-			case 0, 1:
+			case 0, 1, 4:
 				guarded(func() { st.in.decode(data) })
 			case 2:
 				guarded(func() { st.in.writeTo(&FaultyWriter{FaultAt: k, Kind: WErrOnce}, val) })
@@ -636,6 +653,17 @@ func runC11(ch *Choices, cfg *RunCfg) (o *Outcome) {
 		}
 		st.opLog = append(st.opLog, fmt.Sprintf("%d x %s", R, what))
 		o.Faults["soak: failing call repeated"] += R
+		if o.Class == "" {
+			// probe 0 (first, before anything that could heal the instance): a stream that is only decodable with state left over from an earlier message
+			pb, _, _ := foreignStream(ch, true)
+			ftm2, fnm2 := st.pristineMaps()
+			ud := c11Probe(st.in, pDecode, nil, pb)
+			fd := c11Probe(c11New(pair, ftm2, fnm2), pDecode, nil, pb)
+			o.Evals++
+			if ud.canon != fd.canon || ud.err != fd.err || ud.pan != fd.pan {
+				o.fail("c11/probe-differs", "Decode/ToObject", "after %v, Decode of a stream that depends on state of an earlier message returned {%s} on the used instance but {%s} on a fresh one", st.opLog, ud.String(), fd.String())
+			}
+		}
 		// probe 1: a deep chain, encoded and decoded on the used and on a fresh instance
 		n := ch.Range(50, 300, "soak.chain")
 		var head *Node
